@@ -96,6 +96,15 @@ ResolveOperands(dl, a) ==
       f3 == IF "a" \in DOMAIN f2 THEN [f2 EXCEPT !.a = ResolveOpnd(dl, f2.a)] ELSE f2
   IN IF "b" \in DOMAIN f3 THEN [f3 EXCEPT !.b = ResolveOpnd(dl, f3.b)] ELSE f3
 
+\* print statements may write a constant as `offset <data label>` (field <f>sym): linking replaces it by the offset
+LinkWhat(dl, wh) ==
+  [f \in DOMAIN wh \ {"asym", "bsym", "nsym"} |->
+     IF f \in {"a", "b", "n"} /\ (f \o "sym") \in DOMAIN wh THEN dl[wh[f \o "sym"]] ELSE wh[f]]
+Link(C, dl) ==
+  [C EXCEPT !.code = [k \in 1 .. Len(C.code) |->
+     IF C.code[k].ast.cls = "print" /\ \A nm \in {C.code[k].ast.what[f] : f \in DOMAIN C.code[k].ast.what \cap {"asym", "bsym", "nsym"}} : nm \in DOMAIN dl
+     THEN [C.code[k] EXCEPT !.ast.what = LinkWhat(dl, @)] ELSE C.code[k]]]
+
 \* the instruction at 0-based index idx of the list the driver runs (its own `hlt` appended);
 \* dl = data-label offsets
 InsAt(C, dl, idx) ==
@@ -287,7 +296,9 @@ RunService(d) ==
   LET n == d.svc[1]  ah == d.svc[2]
       reads == ReadsStdin(n, ah)
       line == IF reads /\ d.stdin # << >> THEN d.stdin[1].bytes ELSE << >>
-      r == Service(d.m, n, ah, line)
+      \* a line that is not valid UTF-8 cannot be read: it is consumed, the failure is reported and the service does nothing
+      unreadable == reads /\ d.stdin # << >> /\ d.stdin[1].cls = "unreadable"
+      r == IF unreadable THEN [m |-> d.m, out |-> MsgStdinError \o <<NL>>, freemem |-> {}] ELSE Service(d.m, n, ah, line)
   IN [Emit(d, "charout", r.out) EXCEPT !.m = r.m, !.phase = "fetch", !.idx = @ + 1,
                             !.stdin = IF reads /\ d.stdin # << >> THEN Tail(@) ELSE @,
                             !.charout = @ \/ r.out # << >>, !.freemem = r.freemem]
@@ -302,6 +313,11 @@ PromptCmd(d, c) ==
          [] c.cls = "print"   -> LET p == PrintOut(d.m, c.what) IN
                                  IF p.ok THEN Emit(d1, "promptprint", p.out) ELSE Emit(d1, "prompt", MsgInvalidInput \o <<NL>>)
          [] c.cls = "garbage" -> Emit(d1, "prompt", MsgInvalidInput \o <<NL>>)
+         \* a line that is not valid UTF-8: reported, then the run goes on as after `next`
+         [] c.cls = "unreadable" ->
+              LET d2 == Emit(d1, "prompt", MsgStdinError \o <<NL>>) IN
+              IF d.after = "advance" THEN [d2 EXCEPT !.phase = "fetch", !.idx = @ + 1, !.prompted = FALSE]
+              ELSE [d2 EXCEPT !.phase = "invoke"]
 
 Boot(P, C, image) ==
   [m |-> BootMachine(image), idx |-> (IF "start" \in DOMAIN C.labels THEN C.labels["start"] ELSE 0), phase |-> "fetch", out |-> << >>,
